@@ -193,6 +193,7 @@ def run_selftest(prop: str, repo: str, mutants: List[Mutant], floor: int, jobs: 
     finally:
         shutil.rmtree(scratch, ignore_errors=True)
     results.append(rename_locals_twin(prop, repo))
+    results.append(commute_twin(prop, repo))
     if mutants:
         with ProcessPoolExecutor(max_workers=jobs) as ex:
             results.extend(ex.map(_one, [(prop, repo, m) for m in mutants]))
